@@ -198,6 +198,15 @@ Theorem below_start_distinct : forall p l1 l2 m,
 Proof. exact below_start_distinct_lemma. Qed.
 Print Assumptions below_start_distinct.
 
+(* -- the function key is the four attributes, nothing abbreviated: two functions have one key iff
+   name, system name, file and start line all agree -- so "system name = name" and "no system name"
+   are different functions (merge_distinct / merge_exact then keep their stacks apart) -- *)
+Theorem function_key_separates : forall f g,
+  fkey_of f = fkey_of g <->
+  f_name f = f_name g /\ f_sysname f = f_sysname g /\ f_file f = f_file g /\ f_startline f = f_startline g.
+Proof. exact fkey_separates_lemma. Qed.
+Print Assumptions function_key_separates.
+
 (* -- the model compares sample keys as tuples, the Go code as varint byte strings: the byte
    encoding (compared with the real sampleKey byte for byte on every run) is injective on keys whose
    ids are non-zero uint64, numeric values int64 and lengths < 2^64 -- *)
